@@ -69,6 +69,10 @@ func newScope(rootProvider *provider, parent *scope, ctx context.Context, cancel
 	// These need to be called when the scope is created
 	for _, descriptor := range rootProvider.voidReturnScopedDescriptors {
 		if _, err := s.createInstance(descriptor); err != nil {
+			// The scope is never handed out: dispose what the earlier
+			// initializers created and release the derived context.
+			_ = s.Close()
+
 			return nil, &ResolutionError{
 				ServiceType: descriptor.Type,
 				ServiceKey:  descriptor.Key,
